@@ -160,28 +160,31 @@ struct History {
   }
   void reseed(uint64_t salt) { vf::own_randomness(vf::mix64(env.seed ^ vf::mix64(step * 0x100 + salt))); }
 
-  // Allocator errors of one step. A family may map an error to the key of a known finding (alloc_key). Such a finding is
+  // Allocator errors of one step. A family may map an allocator or item error to the key of a known finding (alloc_key). Such a finding is
   // benign for the rest of the history (the tracking allocator releases the block in the registry that owns it), so when
   // its key is listed as open the error is counted once per case and the history goes on; everything else fails here.
   std::function<std::string(const std::string& id, const std::string& msg, const char* after)> alloc_key;
   std::set<std::string> tolerated_keys;
   void drain(const char* after) {
-    uint64_t total = 0;
-    auto errs = take_alloc_errors(&total);
-    for (const auto& e : errs) {
-      vf::count("checks");
-      std::string key = alloc_key ? alloc_key(e.first, e.second, after) : std::string();
-      if (!key.empty() && vf::known_keys().count(key)) {
-        if (tolerated_keys.insert(key).second) vf::stats().known_hits[key]++;
-        vf::label("known-finding-tolerated");
-        continue;
+    for (int pass = 0; pass < 2; ++pass) {
+      uint64_t total = 0;
+      auto errs = pass == 0 ? take_alloc_errors(&total) : take_probe_errors(&total);
+      for (const auto& e : errs) {
+        vf::count("checks");
+        std::string key = alloc_key ? alloc_key(e.first, e.second, after) : std::string();
+        if (!key.empty() && vf::known_keys().count(key)) {
+          if (tolerated_keys.insert(key).second) vf::stats().known_hits[key]++;
+          vf::label("known-finding-tolerated");
+          continue;
+        }
+        std::string more = total > 1 ? "  (" + std::to_string(total) + (pass == 0 ? " allocator" : " item") + " errors in this step)" : "";
+        vf::fail(e.first, famname + " after " + after + ": " + e.second + more, key);
       }
-      std::string more = total > 1 ? "  (" + std::to_string(total) + " allocator errors in this step)" : "";
-      vf::fail(e.first, famname + " after " + after + ": " + e.second + more, key);
     }
-    std::string id, msg;
-    if (take_probe_errors(id, msg)) { vf::count("checks"); vf::fail(id, famname + " after " + after + ": " + msg); }
   }
+  // keys of tolerated findings that are known to leave items undestroyed: the end-of-case item balance is then not evaluated
+  std::set<std::string> leaky_keys;
+  std::string leak_key;   // key of the family's known finding that leaves items undestroyed without any earlier symptom
 
   std::string obs(int i) { return fam.observe(s[i].p); }
 
@@ -460,11 +463,12 @@ struct History {
     }
     vf::count("checks");
     if (!orphan_registry().live.empty()) vf::fail("alloc-leak", famname + ": blocks from a default-constructed allocator are still live");
+    for (const auto& k : tolerated_keys) if (leaky_keys.count(k)) { vf::label("item-balance-not-evaluated(known finding)"); return; }
     vf::count("checks");
-    if (probe_live() != 0) vf::fail("probe-leak", famname + ": every object is dead but " + std::to_string(probe_live()) + " instrumented item(s) were never destroyed");
+    if (probe_live() != 0) vf::fail("probe-leak", famname + ": every object is dead but " + std::to_string(probe_live()) + " instrumented item(s) were never destroyed", leak_key);
     ProbeRegistry& pr = probes();
     vf::count("checks");
-    if (pr.constructed + pr.copied + pr.moved != pr.destroyed) vf::fail("probe-balance", famname + ": item constructions " + std::to_string(pr.constructed + pr.copied + pr.moved) + " != destructions " + std::to_string(pr.destroyed));
+    if (pr.constructed + pr.copied + pr.moved != pr.destroyed) vf::fail("probe-balance", famname + ": item constructions " + std::to_string(pr.constructed + pr.copied + pr.moved) + " != destructions " + std::to_string(pr.destroyed), leak_key);
   }
 };
 
